@@ -220,6 +220,53 @@ def numeric_search(run, models, rng, n):
         run.extra.setdefault("worst_relative_deviation", {})[key] = worst
 
 
+def derived_model_history(run, models):
+    """a user model derived from a shipped module (its namespace copied, as
+    `from nanite.model.model_x import *` does, with another model_func) is
+    registered and removed again: every shipped model still evaluates its own
+    function through model() and residual()"""
+    import types
+    from nanite import model
+    for key in sorted(models):
+        md = model.models_available[key]
+        src = md.module
+        x = np.linspace(1e-6, -1.5e-6, 9)
+        p = md.get_parameter_defaults()
+        p["contact_point"].set(value=2e-7)
+        p["baseline"].set(value=3e-10)
+        before = np.array(md.model(p, x), copy=True)
+        derived = types.ModuleType("nv_derived_" + key)
+        for k_, v_ in vars(src).items():
+            if not k_.startswith("__"):
+                setattr(derived, k_, v_)
+        derived.model_key = "nv_derived_" + key
+        derived.model_name = "derived " + key
+        derived.model_func = lambda delta, **kw: np.zeros_like(delta) + 1.0
+        run.case({"derived-model-history": key}, kind="derived-history")
+        reg = None
+        try:
+            import warnings
+            with warnings.catch_warnings():
+                warnings.simplefilter("ignore")
+                reg = model.register_model(derived)
+        except BaseException as e:
+            run.count("derived-registration-raised:" + type(e).__name__)
+        finally:
+            if reg is not None:
+                model.deregister_model(reg)
+        after = np.asarray(model.models_available[key].model(p, x))
+        direct = np.asarray(src.model_func(x.copy(), **p.valuesdict()))
+        if after.tobytes() != before.tobytes() or \
+                after.tobytes() != direct.tobytes():
+            run.failing(SITE, f"derived-history:{key}",
+                        f"after a user model derived from the module of {key} "
+                        "was registered and removed, model() of the shipped "
+                        f"model changed (max {float(np.max(np.abs(after - before))):.3g}"
+                        " N) / no longer equals its own model function",
+                        payload={"kind": "rerun"},
+                        theorem="C02_formula_" + key)
+
+
 def sneddon_documented_bound(run):
     """numerical cross-check of the documented 1e-4 bound against the exact
     implicit solution (the Coq theorem C02_sneddon_series_close is the proof)"""
@@ -292,6 +339,11 @@ def check(run):
         docstring_constants(run, models)
         numeric_search(run, models, rng, 40 if run.tier == "quick" else 1500)
     sneddon_documented_bound(run)
+    try:
+        derived_model_history(run, dict(gen_formulas.SHIPPED))
+    except BaseException as e:
+        run.obligation("derived-model-history-completed", False,
+                       f"{type(e).__name__}: {e}")
     run.rule = ("per shipped model: random parameter vectors in bounds "
                 "(moduli over 5 decades) x abscissae at, one ulp around, near "
                 "and far from the contact point and up to depth R: compared "
